@@ -17,7 +17,7 @@ LEVEL_NOTE = (
     "degree of the integrand (implied, not separately decided).  Not decided: positive definiteness, callable "
     "variants (jit / non-jit) beyond argument forwarding."
 )
-EXPLANATION = "rules SPARSE-KERNELS, BASIS-MULT-ONCE, SPARSE-ROLES, SPARSE-LAYOUT, SPARSE-SCATTER, GF-INTEGRATE, GF-PROJECT, GF-FORWARD, GF-EVALUATE, IDX-ELEM-BY-POSITION, PROTO-METHOD-SUBSCRIPT, SPACE-MAPS, REFGRAD-SUM"
+EXPLANATION = "rules SPARSE-KERNELS, BASIS-MULT-ONCE, SPARSE-ROLES, SPARSE-LAYOUT, SPARSE-SCATTER, GF-INTEGRATE, GF-PROJECT, GF-FORWARD, GF-EVALUATE, GF-L2NORM, IDX-ELEM-BY-POSITION, PROTO-METHOD-SUBSCRIPT, SPACE-MAPS, REFGRAD-SUM"
 ASSUMPTIONS = ["Numba/numpy broadcasting semantics as modelled by the symbolic evaluator", "basis evaluators return [component, function, point] arrays"]
 
 
@@ -31,6 +31,7 @@ def run(ctx):
     gridfun.project_vectorized(ctx)
     gridfun.forwarding(ctx)
     gridfun.evaluate_rules(ctx)
+    gridfun.l2_norm_rule(ctx)
     gridfun.repo_lints(ctx)
     spaces.coefficient_maps(ctx)
     sparse.mass_matrices(ctx)
